@@ -187,6 +187,6 @@ pub fn run(ctx: &Ctx) {
     if ctx.is_worker || ctx.replay.is_some() {
         ctx.explore("contexts", 1, 1, case_strategy, oracle);
     } else {
-        run_confs(ctx, "contexts", ctx.tier.pick(8, 48), ctx.tier.pick(25, 120), false, &[]);
+        run_confs(ctx, "contexts", ctx.tier.pick(16, 96), ctx.tier.pick(40, 200), false, &[]);
     }
 }
